@@ -300,3 +300,17 @@ def explore(fn, *, budget_s=60.0, per_path_s=30.0, shard=(0, 1), shard_of=None,
     st['distinct_reps'] = len(reps)
     st['functions'] = sorted(_PROFILE['fns'])
     return st
+
+
+def choose(idx, n: int) -> int:
+    """Consume a selector: returns the concrete value of `idx` in range(n), forking the path
+    tree by binary search (log2(n) z3-decided branches per path, no duplicate paths).
+    Natively the identity.  The caller must have assumed 0 <= idx < n."""
+    lo, hi = 0, n
+    while hi - lo > 1:
+        mid = (lo + hi) // 2
+        if idx < mid:
+            hi = mid
+        else:
+            lo = mid
+    return lo
